@@ -29,6 +29,7 @@ def spec_trace(h):
             if m["origin"] is None:
                 m["origin"] = cells[m["var"]]
             cells[m["var"]] = b
+            m["canceled"] = False    # a mocker that is set again after Cancel is live again: Reset of its builder must reach it
         elif k == 3:
             m = mockers[handles[a]]
             if m["origin"] is not None:
